@@ -158,6 +158,47 @@ def rule_mirror(check):
         check.expect(same and kept, R, R + "/kept-ident", hir.loc(n), "kept identifier pushed as is (mode != Replace)", "the Keep branch pushes %s" % sorted(origin_str(x) for x in o))
 
 
+def rule_kept_in_place(check):
+    R = "KEPT-IN-PLACE"
+    check.rule(R, "an operand may stay in place and be reported to the hook by a copy only if evaluating it twice cannot be observed: literals, and identifiers in Keep mode; every other operand kind is hoisted into a temporary (evaluated once)")
+    prog = check.prog
+    # which operand kinds are reported by a *copy* while the original stays in place: only those whose
+    # evaluation has no effect and always gives the same value - literals, and identifiers in Keep mode.
+    # Anything else left in place is evaluated twice (once in the expression, once as hook argument).
+    fo = prog.fn("OperandHandler::replace_expressions_in_expr")
+    ms = [n for n in hir.walk_no_closure(fo.body) if n.get("k") == "Match" and hir.local_of(n["scrut"]) and fo.bindings()[hir.local_of(n["scrut"])[0]]["origin"][:2] == ("param", 0)]
+    hoisters = {"get_ident_used_in_assignation", "get_temporal_ident_used_in_assignation", "replace_default", "replace_binary", "map_with_mut", "replace_expressions_in_expr", "replace_expressions_in_expr_or_spread"}
+    for m_ in ms[:1]:
+        for a_ in m_["arms"]:
+            v_ = hir.pat_variant(a_["pat"])
+            vs_ = {str(x).split("::")[-1] for x in (v_ if isinstance(v_, tuple) else (v_,))}
+            calls_ = {(hir.callee_name(x) or x.get("method")) for x in hir.walk(a_["body"]) if hir.is_call(x)}
+            if calls_ & hoisters:
+                # the arm may hoist; helpers it goes through decide (checked by EFFECT / IDENT-MODE)
+                inner_h = [prog.resolve_local(x) for x in hir.walk(a_["body"]) if hir.is_call(x)]
+                continue
+            pushes_ = [x for x in hir.walk(a_["body"]) if hir.is_call(x) and (hir.callee_name(x) or x.get("method")) == "push"]
+            via_helper = [prog.resolve_local(x) for x in hir.walk(a_["body"]) if hir.is_call(x) and prog.resolve_local(x) is not None]
+            keeps = bool(pushes_) or any(h_ is not None and h_.body is not None and any(hir.is_call(y) and (hir.callee_name(y) or y.get("method")) == "push" for y in hir.walk(h_.body)) and not any(hir.is_call(y) and (hir.callee_name(y) or y.get("method")) in hoisters for y in hir.walk(h_.body)) for h_ in via_helper)
+            stays = not (calls_ & hoisters)
+            if not keeps and not stays:
+                continue
+            if vs_ == {"_"}:
+                continue
+            guard_keep = "guard" in a_ and "Keep" in hir.describe(a_["guard"])
+            if not keeps and check.prop != "C01":
+                continue  # evaluation order is C01's business
+            if not keeps:
+                # left where it is and not reported at all (EFFECT, C03, judges the missing argument): for
+                # the order of evaluation only kinds whose evaluation cannot be observed may stay behind
+                # while later operands are hoisted in front of them
+                ok_ = vs_ <= {"Lit", "Ident", "Bin", "Fn", "Arrow", "This"}
+                check.expect(ok_, R, "%s/stays/%s" % (R, "+".join(sorted(vs_))), hir.loc(a_["body"]), "operand kinds left in place are free of evaluation effects", "operand kind(s) %s are left in place while later operands are hoisted in front of them: their evaluation effects now happen after those of the later operands" % sorted(vs_ - {"Lit", "Ident", "Bin", "Fn", "Arrow", "This"}))
+                continue
+            ok_ = vs_ <= {"Lit"} or (vs_ == {"Ident"})
+            check.expect(ok_, R, "%s/%s" % (R, "+".join(sorted(vs_))), hir.loc(a_["body"]), "only literals (and kept identifiers) are reported by a copy while staying in place", "operand kind(s) %s stay in place and are reported by a copy: they are evaluated twice and the hook does not receive the value the operation used" % sorted(vs_ - {"Lit", "Ident"}))
+
+
 def rule_hook_shape(check):
     R = "HOOK-SHAPE"
     check.rule(R, "get_dd_call_expr builds args = [wrapped expression (no spread)] ++ arguments in order; get_dd_paren_expr forwards them unchanged, appends the hook call after all assignations and builds the sequence by forward iteration")
@@ -1155,7 +1196,19 @@ def rule_optchain_lowering(check):
                 if verdict is None and after:
                     verdict = (_ctor_name(hir.peel(after[-1])) or "").split("::")[-1] == "Some"
                 check.expect(bool(verdict), R, "%s/rewritten-node-returned/%s" % (R, g.name), hir.loc(a), "after recording the temporary the helper returns Some(<rewritten node>)", "%s records the temporary of the lowering and then returns None: the chain is left as it was next to its hoisted assignment (evaluated twice, not instrumented)" % g.name)
-    check.floor(R, "places where the lowering records its temporary", n_rec, 2)
+    # the guard variable is the temporary of the *last* hoisted part (the optional link itself): it is
+    # overwritten by plain assignment, never kept from an earlier hoist
+    keepers = []
+    for g in prog.user_fns:
+        if not (g.rec.get("self_ty") or "").split("<")[0].endswith("OptChainVisitor"):
+            continue
+        for x in g.nodes():
+            if x.get("k") == "MethodCall" and (hir.place(x["recv"]) or "").endswith(".new_ident") and x["method"] in ("get_or_insert_with", "get_or_insert", "or", "or_else", "insert", "replace", "take", "get_or_insert_default", "xor"):
+                keepers.append((g, x))
+                n_rec += 1
+    for g, x in keepers:
+        check.bad(R, "%s/guard-variable/%s" % (R, g.name), hir.loc(x), "the guard variable of the lowering is set with .%s(..): when two temporaries are hoisted (object and member of an optional call) the `== null` test can end up on the wrong one" % x["method"])
+    check.floor(R, "places where the lowering records its temporary", n_rec, 1)
     pushes = [x for x in hir.calls_in(f.body, name="push") if (hir.place(hir.call_args(x)[0]) or "").endswith(".assignments")]
     seqs = [x for x in hir.walk(f.body) if x.get("k") == "Struct" and (x["res"].get("path") or "").endswith("SeqExpr")]
     ok = len(pushes) == 1 and len(seqs) == 1 and pushes[0]["id"] < seqs[0]["id"]
